@@ -812,6 +812,18 @@ class TermBuilder(object):
             return ('tuple' if isinstance(e, ast.Tuple) else 'list', tuple(b(x) for x in e.elts))
         if isinstance(e, ast.IfExp):
             return ('ifexp', b(e.test), b(e.body), b(e.orelse))
+        if isinstance(e, ast.JoinedStr):
+            # f'..{a}..{b}' == '..{}..{}'.format(a, b) when no conversion / format spec is used
+            template, args = '', []
+            for part in e.values:
+                if isinstance(part, ast.Constant) and isinstance(part.value, str):
+                    template += part.value.replace('{', '{{').replace('}', '}}')
+                elif isinstance(part, ast.FormattedValue) and part.conversion == -1 and part.format_spec is None:
+                    template += '{}'
+                    args.append(b(part.value))
+                else:
+                    return ('opaque', 'JoinedStr:' + short(e, 60))
+            return ('meth', ('str', template), 'format', tuple(args), ())
         return ('opaque', type(e).__name__ + ':' + short(e, 60))
 
     def _is_local(self, name):
@@ -1984,6 +1996,8 @@ UNK = _Unknown()
 def enum_eval(t, asg):
     """Value of a term under an assignment of configuration keys (python values); UNK when data-dependent."""
     BUDGET.tick()
+    if t in asg:                      # whole terms (e.g. an opaque loop result) may be assigned directly
+        return asg[t]
     k = t[0]
     if k in ('str', 'bool'):
         return t[1]
@@ -2020,6 +2034,12 @@ def enum_eval(t, asg):
                     'is': lambda: a is b, 'isnot': lambda: a is not b}[t[1]]()
         except TypeError:
             return UNK
+    if k == 'ifexp':
+        c = enum_eval(t[1], asg)
+        if c is UNK:
+            a, b = enum_eval(t[2], asg), enum_eval(t[3], asg)
+            return a if (a is not UNK and b is not UNK and a == b) else UNK
+        return enum_eval(t[2] if c else t[3], asg)
     if k in ('mod', 'add', 'sub', 'mul', 'floordiv'):
         a, b = enum_eval(t[1], asg), enum_eval(t[2], asg)
         if a is UNK or b is UNK or isinstance(a, (str, type(None))) or isinstance(b, (str, type(None))):
